@@ -69,7 +69,11 @@ class C01(framework.PropertyCheck):
             ids = sorted({h[3] for h in vf['header'] if h[0] == 'var'})[:6] or ['!']
             aux = {'header': [['scope', 'module', 'other']] + [['var', 'wire', 3, i, f'o{k}', None] for k, i in enumerate(ids)] + [['upscope']],
                    'dump': [['time', 0]] + [['vector', '101', i] for i in ids] + [['time', 7]] + [['vector', '010', i] for i in ids]}
-            if case['history'] % 2:
+            if case['history'] % 3 == 2:
+                # the other file is loaded after this one (same identifier codes, other widths), read, and unloaded before anything is asked
+                steps = [steps[0], ('loadvcd', 'zz', gen_trace.render(aux, random.Random(case['history']))), ('eval', 'eorg', '(list zz^other.o0)'),
+                         ('unload', 'zz'), steps[1]]
+            elif case['history'] % 2:
                 steps = [('loadvcd', 'zz', gen_trace.render(aux, random.Random(case['history']))), ('eval', 'eorg', '(list other.o0 MAX-INDEX)'),
                          steps[0], ('unload', 'zz'), steps[1]]
             else:
@@ -102,7 +106,11 @@ class C01(framework.PropertyCheck):
         if case.get('unload_first'):
             iobs = iobs[1:]
         if case.get('history') is not None:
-            if case['history'] % 2:
+            if case['history'] % 3 == 2:
+                if len(iobs) < 4 or iobs[1] != ('ok',) or iobs[2][0] != 'ok' or iobs[3] != ('ok',):
+                    return {'what': 'loading / reading / unloading the other file failed', 'obs': iobs[:4]}
+                iobs = iobs[0:1] + iobs[4:]
+            elif case['history'] % 2:
                 if len(iobs) < 4 or iobs[0] != ('ok',) or iobs[3] != ('ok',):
                     return {'what': 'loading / unloading the other file failed', 'obs': iobs[:4]}
                 iobs = iobs[2:3] + iobs[4:]
